@@ -37,6 +37,8 @@ pub enum Bloom {
     Odd,
     /// pearl's default config
     Default,
+    /// 2000 elements, 2 hashers, 80 000 bits (used by the C17 corpus)
+    K80,
 }
 
 #[derive(Clone, Debug, PartialEq, Eq, Serialize, Deserialize)]
@@ -84,6 +86,7 @@ impl Cfg {
             Bloom::Tiny => Some(BloomConfig { elements: 10, hashers_count: 2, max_buf_bits_count: 100, buf_increase_step: 1, preferred_false_positive_rate: 0.01 }),
             Bloom::Odd => Some(BloomConfig { elements: 37, hashers_count: 3, max_buf_bits_count: 1237, buf_increase_step: 7, preferred_false_positive_rate: 0.05 }),
             Bloom::Default => Some(BloomConfig::default()),
+            Bloom::K80 => Some(BloomConfig { elements: 2000, hashers_count: 2, max_buf_bits_count: 80_000, buf_increase_step: 1, preferred_false_positive_rate: 0.001 }),
         }
     }
 
